@@ -195,11 +195,16 @@ def apply_real(H, op):
     elif name == "remove_node":
         H.remove_node(op[1], strong=op[2], remove_empty=op[3])
     elif name == "remove_nodes_from":
-        H.remove_nodes_from(list(op[1]), strong=op[2], remove_empty=op[3])
+        H.remove_nodes_from(nets.bunch(op[1]), strong=op[2], remove_empty=op[3])
     elif name == "set_node_attributes":
         H.set_node_attributes(setattr_arg(op), name=op[3])
     elif name == "add_edge":
-        H.add_edge(pair(op[1], op[2], op[3]), idx=op[4], **copy.deepcopy(op[5]))
+        c = pair(op[1], op[2], op[3])
+        try:
+            H.add_edge(c, idx=op[4], **copy.deepcopy(op[5]))
+        finally:
+            for side in c:
+                nets.scribble_after(side)
     elif name == "add_edges_from":
         H.add_edges_from(bulk_arg(op), **copy.deepcopy(op[3]))
     elif name == "set_edge_attributes":
@@ -209,7 +214,7 @@ def apply_real(H, op):
     elif name == "remove_edge":
         H.remove_edge(op[1])
     elif name == "remove_edges_from":
-        H.remove_edges_from(list(op[1]))
+        H.remove_edges_from(nets.bunch(op[1]))
     elif name == "remove_node_from_edge":
         H.remove_node_from_edge(op[1], op[2], op[3], remove_empty=op[4])
     elif name == "set_net_attr":
